@@ -22,6 +22,7 @@ import (
 	"os"
 	"sort"
 	"strings"
+	"sync"
 	"sync/atomic"
 	"time"
 
@@ -116,6 +117,7 @@ type rawIn struct {
 type input struct {
 	Kind   string   `json:"kind"` // metrics | event | config | rx_metrics | rx_event | raw | concurrent
 	Conc   *concIn  `json:"conc,omitempty"`
+	Tamper *tamperIn `json:"tamper,omitempty"`
 	Raw    *rawIn   `json:"raw,omitempty"`
 	Cfg    cfg      `json:"cfg"`
 	Series []series `json:"series,omitempty"`
@@ -198,7 +200,9 @@ func project(mm *gostatsd.MetricMap) string {
 // the rig: one ingestion server + one forwarder per configuration
 
 type record struct {
-	scripted  bool // answered 503 by the fault script, not routed
+	tampered  bool   // the body was damaged between forwarder and server
+	orig      []byte // the body the forwarder sent, when tampered
+	scripted  bool   // answered 503 by the fault script, not routed
 	path, enc string
 	body      []byte
 	status    int
@@ -246,6 +250,9 @@ type rigOpt struct {
 var defaultOpt = rigOpt{maxReq: 1, flush: time.Millisecond, maxElapsed: 300 * time.Millisecond}
 
 type rig struct {
+	tmu      sync.Mutex
+	tamper   func([]byte) []byte // applied to the next request only
+	opt      rigOpt
 	failLeft int64 // atomic: the next failLeft requests are answered 503 without being routed
 	delayNs  int64 // atomic: every request is held this long before it is routed
 	cfg     cfg
@@ -271,16 +278,36 @@ func newForwarderOpt(c cfg, endpoint string, o rigOpt) (*statsd.HttpForwarderHan
 
 func newRig(c cfg) (*rig, error) { return newRigOpt(c, defaultOpt) }
 
+func (r *rig) takeTamper() func([]byte) []byte {
+	r.tmu.Lock()
+	defer r.tmu.Unlock()
+	t := r.tamper
+	r.tamper = nil
+	return t
+}
+
+func (r *rig) armTamper(t func([]byte) []byte) {
+	r.tmu.Lock()
+	r.tamper = t
+	r.tmu.Unlock()
+}
+
 func newRigOpt(c cfg, o rigOpt) (*rig, error) {
-	r := &rig{cfg: c, records: make(chan *record, 1024), done: make(chan struct{})}
+	r := &rig{opt: o, cfg: c, records: make(chan *record, 1024), done: make(chan struct{})}
 	hs, err := web.NewHttpServer(quiet, capture{}, "verif", "127.0.0.1:0", false, false, true, false, nil, nil)
 	if err != nil {
 		return nil, err
 	}
 	r.srv = httptest.NewServer(http.HandlerFunc(func(w http.ResponseWriter, req *http.Request) {
 		body, _ := io.ReadAll(req.Body)
+		var orig []byte
+		if t := r.takeTamper(); t != nil { // the relay damages this request in transit
+			orig = body
+			body = t(append([]byte{}, body...))
+			req.ContentLength = int64(len(body))
+		}
 		req.Body = io.NopCloser(bytes.NewReader(body))
-		rec := &record{path: req.URL.Path, enc: req.Header.Get("Content-Encoding"), body: body}
+		rec := &record{path: req.URL.Path, enc: req.Header.Get("Content-Encoding"), body: body, orig: orig, tampered: orig != nil}
 		if d := atomic.LoadInt64(&r.delayNs); d > 0 {
 			time.Sleep(time.Duration(d))
 		}
@@ -336,12 +363,14 @@ var concAttempts = 1
 
 var cur *rig
 
-func rigFor(c cfg) (*rig, error) {
-	if cur != nil && cur.cfg == c {
+func rigFor(c cfg) (*rig, error) { return rigForOpt(c, defaultOpt) }
+
+func rigForOpt(c cfg, o rigOpt) (*rig, error) {
+	if cur != nil && cur.cfg == c && cur.opt.maxReq == o.maxReq && cur.opt.maxElapsed == o.maxElapsed && cur.opt.flush == o.flush && len(cur.opt.dyn) == 0 && len(o.dyn) == 0 {
 		return cur, nil
 	}
 	dropRig()
-	r, err := newRig(c)
+	r, err := newRigOpt(c, o)
 	if err != nil {
 		return nil, err
 	}
@@ -397,6 +426,9 @@ func runOne(em *hlib.Emitter, in input) {
 	switch in.Kind {
 	case "concurrent":
 		runConc(em, in, concAttempts)
+		return
+	case "tamper":
+		runTamper(em, in)
 		return
 	case "config":
 		f, err := newForwarder(in.Cfg, "http://127.0.0.1:1")
@@ -946,6 +978,14 @@ func main() {
 	case "gen":
 		r := hlib.NewRand(a.Seed)
 		for n := 0; n < a.N; {
+			if a.Extra["stream"] == "tamper" || r.Chance(1, 14) {
+				for g := r.Range(2, 4); g > 0 && n < a.N; g-- {
+					c := cfg{Compress: !r.Chance(1, 6), CType: hlib.Pick(r, []string{"lz4", "lz4", "lz4", "zlib", "zlib", ""}), Level: r.Range(0, 9)}
+					runOne(em, genTamper(r, c))
+					n++
+				}
+				continue
+			}
 			if a.Extra["stream"] == "concurrent" || r.Chance(1, 5) {
 				runOne(em, genConc(r))
 				n++
